@@ -604,6 +604,7 @@ class _ManifoldDynamicsService(_DynamicsServiceBase):
         """
         self._eigendecomposition_config = value
         self._generator = None  # Invalidate cache to trigger recreation
+        self.reset()  # results computed with the previous configuration are stale
     
     @property
     def eigendecomposition_options(self) -> "EigenDecompositionOptions":
